@@ -59,6 +59,11 @@ type Op struct {
 	// Off: in a script with Share, the call's options are the view arr[Off : Off+len(Opts)] of the caller's
 	// one option array (0: a view from the start)
 	Off int `json:"off,omitempty"`
+	// Site / In: calls the caller's own callback makes on the same resource while the write is in progress
+	// (nested.go): the first time the write invokes its expected check ("chk"), before ("bf") or after ("af")
+	// interceptor, the callback runs the calls In, in order, on the calling goroutine, then does its own work.
+	Site string `json:"site,omitempty"`
+	In   []Op   `json:"in,omitempty"`
 }
 
 type Script struct {
